@@ -67,7 +67,9 @@ def gen_history(seed, tier, *, n_ops=(2, 6), genkw=None,
             ops.append(dict(op="bump", node=rng.choice(bumpable)))
     if final_run:
         ops.append(dict(op="run", cfg=_cfg(rng, world), final=True))
-    return dict(seed=seed, world=world, ops=ops, sched=sc), rng
+    # distance between successive modified times: from whole seconds down to tens of microseconds
+    tick = rng.choice([1.0, 1.0, 0.3, 0.3, 0.001, 0.00002])
+    return dict(seed=seed, world=world, ops=ops, sched=sc, tick=tick), rng
 
 
 def _owner(world, store):
